@@ -595,3 +595,72 @@ func GenPresentation(t *rapid.T, ts Tables) (Presentation, int) {
 	}
 	return p, dims
 }
+
+// InflateFeed returns a copy of f grown to roughly n stops, n/4 trips and n stop_times rows by
+// replicating existing rows under fresh ids (references stay resolvable, sequences stay distinct),
+// so that size-dependent behaviour (slice growth, buffering, pre-allocation) is exercised with a
+// feed whose expected result is still known exactly.
+func InflateFeed(f *Feed, n int) *Feed {
+	g := *f
+	g.Stops = append([]Stop(nil), f.Stops...)
+	g.Trips = append([]Trip(nil), f.Trips...)
+	g.StopTimes = append([]StopTime(nil), f.StopTimes...)
+	g.Shapes = append([]ShapeRow(nil), f.Shapes...)
+	baseStops := len(f.Stops)
+	for i := 0; len(g.Stops) < n && baseStops > 0; i++ {
+		s := f.Stops[i%baseStops]
+		s.ID = fmt.Sprintf("%s~%d", s.ID, i)
+		g.Stops = append(g.Stops, s) // same parent as the original: still a forest
+	}
+	baseTrips := len(f.Trips)
+	byTrip := map[string][]StopTime{}
+	for _, st := range f.StopTimes {
+		byTrip[st.TripID] = append(byTrip[st.TripID], st)
+	}
+	for i := 0; len(g.Trips) < n/4 && baseTrips > 0; i++ {
+		t := f.Trips[i%baseTrips]
+		orig := t.ID
+		t.ID = fmt.Sprintf("%s~%d", t.ID, i)
+		g.Trips = append(g.Trips, t)
+		for k, st := range byTrip[orig] {
+			st.TripID = t.ID
+			st.StopID = g.Stops[(i*7+k*13)%len(g.Stops)].ID
+			g.StopTimes = append(g.StopTimes, st)
+		}
+	}
+	// pad one trip with many stop times (distinct sequences continuing after its largest one)
+	if len(g.Trips) > 0 && len(g.Stops) > 0 {
+		t := g.Trips[len(g.Trips)-1]
+		maxSeq := 0
+		tmpl := StopTime{TripID: t.ID, Arr: TimeVal{Sec: 3600, Text: "01:00:00"}, Dep: TimeVal{Sec: 3660, Text: "01:01:00"}, Pickup: 0, DropOff: 0, CPickup: 1, CDropOff: 1, Timepoint: 1}
+		for _, st := range g.StopTimes {
+			if st.TripID == t.ID {
+				if st.Seq > maxSeq {
+					maxSeq = st.Seq
+				}
+				tmpl = st
+			}
+		}
+		for k := 0; len(g.StopTimes) < n; k++ {
+			st := tmpl
+			st.Seq = maxSeq + 1 + k
+			st.StopID = g.Stops[(k*31)%len(g.Stops)].ID
+			g.StopTimes = append(g.StopTimes, st)
+		}
+	}
+	if len(f.Shapes) > 0 {
+		last := f.Shapes[len(f.Shapes)-1]
+		maxSeq := 0
+		for _, r := range f.Shapes {
+			if r.ShapeID == last.ShapeID && r.Seq > maxSeq {
+				maxSeq = r.Seq
+			}
+		}
+		for k := 0; len(g.Shapes) < n/2; k++ {
+			r := last
+			r.Seq = maxSeq + 1 + k
+			g.Shapes = append(g.Shapes, r)
+		}
+	}
+	return &g
+}
